@@ -448,6 +448,15 @@ func u2b(x uint64) *big.Int { return new(big.Int).SetUint64(x) }
 // runGo executes the case on the real code. compiled[addr] is the bytecode of each contract account.
 func runGo(c *testCase, checkObs bool) (res *caseResult, fatal string) {
 	bad := false
+	defer func() {
+		if p := recover(); p != nil { // outside every guarded phase: building the pre-state
+			if res == nil {
+				res = &caseResult{}
+			}
+			res.txs = append(res.txs, txResult{panicMsg: "building the pre-state: " + fmt.Sprint(p)})
+			fatal = ""
+		}
+	}()
 	db := state.NewDatabase(youdb.NewMemDatabase())
 	st, err := state.New(common.Hash{}, common.Hash{}, common.Hash{}, db)
 	if err != nil {
@@ -499,17 +508,38 @@ func runGo(c *testCase, checkObs bool) (res *caseResult, fatal string) {
 			Coinbase: common.Address{}, GasLimit: 10000000, BlockNumber: big.NewInt(100), Time: big.NewInt(1000)}
 		evm := vm.NewEVM(ctx, st, cfg)
 		var r txResult
-		totalBefore := totalBalance(st, tr.universe())
-		var rootBefore common.Hash
-		if checkObs {
-			rootBefore, _, _ = st.Copy().IntermediateRoot(true)
-		}
-		func() {
+		// every invocation of the real code is guarded: a panic anywhere (EVM, StateDB getters, Copy,
+		// IntermediateRoot, Finalise) becomes an outcome of this transaction, never the death of the harness
+		guard := func(phase string, f func()) (ok bool) {
 			defer func() {
 				if p := recover(); p != nil {
-					r.panicMsg = fmt.Sprint(p)
+					r.panicMsg = phase + ": " + fmt.Sprint(p)
+					ok = false
 				}
 			}()
+			f()
+			return true
+		}
+		abort := func() (*caseResult, string) {
+			r.events = tr.events
+			r.viol = append(r.viol, tr.viol...)
+			res.txs = append(res.txs, r)
+			res.addrs = universe
+			return res, "" // the StateDB is unusable after a panic
+		}
+		var totalBefore, totalAfter *big.Int
+		var rootBefore common.Hash
+		var obsBefore []string
+		if !guard("observing the state before the transaction (getters, Copy, IntermediateRoot)", func() {
+			totalBefore = totalBalance(st, tr.universe())
+			if checkObs {
+				obsBefore = tr.snapshotObs(false)
+				rootBefore, _, _ = st.Copy().IntermediateRoot(true)
+			}
+		}) {
+			return abort()
+		}
+		if !guard("EVM execution", func() {
 			var e error
 			if t.create {
 				code, _ := assemble(c, t.init, 0, &bad)
@@ -524,36 +554,68 @@ func runGo(c *testCase, checkObs bool) (res *caseResult, fatal string) {
 			if e != nil && r.class != "revert" {
 				r.ret = nil
 			}
-		}()
+		}) {
+			return abort()
+		}
 		r.events = tr.events
 		r.viol = tr.viol
-		if r.panicMsg != "" {
-			res.txs = append(res.txs, r)
-			res.addrs = tr.universe()
-			return res, "" // the StateDB is unusable after a panic inside RevertToSnapshot
-		}
-		uni := tr.universe()
+		tr.viol = nil
+		var uni []common.Address
 		// ---- transaction-level oracle -------------------------------------------------------------
 		if r.gasLeft > t.gas {
 			r.viol = append(r.viol, violation{"gas_monotone", fmt.Sprintf("tx %d: gas left %d > gas supplied %d", i, r.gasLeft, t.gas)})
 		}
-		totalAfter := totalBalance(st, uni)
-		if totalAfter.Cmp(totalBefore) > 0 || (tr.suicides == 0 && totalAfter.Cmp(totalBefore) != 0) {
-			r.viol = append(r.viol, violation{"balance_conserved", fmt.Sprintf("tx %d: sum of balances %s -> %s with %d SELFDESTRUCT executed", i, totalBefore, totalAfter, tr.suicides)})
+		if !guard("observing the state after the transaction (getters)", func() {
+			uni = tr.universe()
+			totalAfter = totalBalance(st, uni)
+			if totalAfter.Cmp(totalBefore) > 0 || (tr.suicides == 0 && totalAfter.Cmp(totalBefore) != 0) {
+				r.viol = append(r.viol, violation{"balance_conserved", fmt.Sprintf("tx %d: sum of balances %s -> %s with %d SELFDESTRUCT executed", i, totalBefore, totalAfter, tr.suicides)})
+			}
+			if checkObs && r.class != "ok" {
+				// the outermost frame failed: the observable state must be what it was (a failed creation may keep
+				// the sender's nonce bump)
+				after := tr.snapshotObs(false)
+				if d := diffObs(obsBefore, after); d != "" && !(t.create && onlyNonceBump(obsBefore, after, t.origin)) {
+					r.viol = append(r.viol, violation{"failed_frame_no_trace", fmt.Sprintf("tx %d failed (%s): %s", i, r.class, d)})
+				}
+			}
+		}) {
+			return abort()
 		}
-		if checkObs && r.class != "ok" {
-			rootAfter, _, _ := st.Copy().IntermediateRoot(true)
-			if rootAfter != rootBefore && !t.create { // a failed creation may keep the sender's nonce bump
-				r.viol = append(r.viol, violation{"failed_frame_no_trace", fmt.Sprintf("tx %d failed (%s) but the state root changed %x -> %x", i, r.class, rootBefore[:6], rootAfter[:6])})
+		if checkObs && r.class != "ok" && !t.create {
+			if !guard("StateDB.Copy / IntermediateRoot after the failed transaction", func() {
+				rootAfter, _, _ := st.Copy().IntermediateRoot(true)
+				if rootAfter != rootBefore {
+					r.viol = append(r.viol, violation{"failed_frame_no_trace", fmt.Sprintf("tx %d failed (%s) but the state root changed %x -> %x", i, r.class, rootBefore[:6], rootAfter[:6])})
+				}
+			}) {
+				return abort()
 			}
 		}
 		r.uni, r.total0, r.total1, r.suicides = uni, totalBefore, totalAfter, tr.suicides
 		// dumps compared with the model show empty accounts as non-existent (see Driver/C16.lean dumpAcct);
 		// the failing-frame oracle above compares existence exactly
-		r.dump = append(observe(st, uni, res.slots, true), "logs="+logsText(st, thash), fmt.Sprintf("refund=%d", st.GetRefund()))
-		st.Finalise(true)
-		r.dumpFin = append(observe(st, uni, res.slots, true), "logs=-", "refund=0")
+		if !guard("dump / Finalise(true) / dump", func() {
+			r.dump = append(observe(st, uni, res.slots, true), "logs="+logsText(st, thash), fmt.Sprintf("refund=%d", st.GetRefund()))
+			st.Finalise(true)
+			r.dumpFin = append(observe(st, uni, res.slots, true), "logs=-", "refund=0")
+		}) {
+			return abort()
+		}
 		res.txs = append(res.txs, r)
+	}
+	// end of block: the root computation must survive whatever the transactions left behind
+	if checkObs && len(res.txs) > 0 {
+		last := &res.txs[len(res.txs)-1]
+		func() {
+			defer func() {
+				if p := recover(); p != nil {
+					last.panicMsg = "IntermediateRoot at the end of the block: " + fmt.Sprint(p)
+				}
+			}()
+			st.Copy().IntermediateRoot(true)
+			st.IntermediateRoot(true)
+		}()
 	}
 	res.addrs = tr.universe()
 	if bad {
